@@ -166,6 +166,7 @@ def restrict_for_twin(spec, rng, top=True):
             j['cdur'] = 0
             j['cyields'] = 0
             j['syields'] = 0
+            j.pop('itmo', None)         # its clean-up is a cancellation delay too
             if not top:
                 j['forever'] = False
                 if j.get('dur', 0) is None:
